@@ -32,6 +32,39 @@ def _drive(args, wd, out_name, env=None):
         return json.load(f)
 
 
+def _drive_seq_parallel(seq_path, wd, tier, nproc=12):
+    """The sequential family is embarrassingly parallel: split the case file and run one driver per chunk."""
+    from concurrent.futures import ThreadPoolExecutor
+    outs = [open(os.path.join(wd, f"seq{i}.ndjson"), "w") for i in range(nproc)]
+    with open(seq_path) as f:
+        for n, line in enumerate(f):
+            outs[n % nproc].write(line)
+    for o in outs:
+        o.close()
+    os.remove(seq_path)
+
+    def one(i):
+        return _drive(["seq", os.path.join(wd, f"seq{i}.ndjson")], wd, f"seq{i}.json", env={"VERIF_TIER": tier})
+
+    with ThreadPoolExecutor(max_workers=nproc) as ex:
+        parts = list(ex.map(one, range(nproc)))
+    merged = dict(parts[0])
+    for k in ("cases", "calls", "n_disagree", "nontrivial", "reference_skipped_self_rename"):
+        merged[k] = sum(p.get(k, 0) for p in parts)
+    merged["per_store"] = {}
+    for p in parts:
+        for st, n in (p.get("per_store") or {}).items():
+            merged["per_store"][st] = merged["per_store"].get(st, 0) + n
+    merged["disagreements"] = [d for p in parts for d in p["disagreements"]]
+    merged["samples"] = [x for p in parts for x in p.get("samples", [])][:4]
+    for i in range(nproc):
+        try:
+            os.remove(os.path.join(wd, f"seq{i}.ndjson"))
+        except OSError:
+            pass
+    return merged
+
+
 def run(tier):
     t0 = time.time()
     vlib.build_harness()
@@ -41,7 +74,8 @@ def run(tier):
     res = vlib.run_tlc("MC_ObjStore", f"MC_ObjStore_{tier}.cfg", wd, workers=12, timeout=2400, heap="12g", out_name="seq.out")
     tlc["seq"] = {"states": res["states"], "transitions": res["generated"]}
     seq_path, n_seq = _cases(res, wd, "seq")
-    seq = _drive(["seq", seq_path], wd, "seq.json", env={"VERIF_TIER": tier})
+    seq = _drive_seq_parallel(seq_path, wd, tier) if n_seq > 200000 else \
+        _drive(["seq", seq_path], wd, "seq.json", env={"VERIF_TIER": tier})
     res = vlib.run_tlc("MC_ObjStore", f"MC_ObjStore_conc_{tier}.cfg", wd, workers=12, timeout=2400, heap="12g", out_name="conc.out")
     tlc["conc"] = {"states": res["states"], "transitions": res["generated"]}
     conc_path, n_conc = _cases(res, wd, "conc")
